@@ -48,6 +48,12 @@ def same_zero(z, x):
 
 
 ELEMWISE = ["floor", "ceil", "round", "rint", "around", "fix", "trunc", "sign"]
+NOGRAD_PINNED = ['all', 'allclose', 'any', 'argmax', 'argmin', 'argpartition', 'argsort', 'argwhere', 'around', 'array_equal',
+                 'array_equiv', 'ceil', 'count_nonzero', 'equal', 'fix', 'flatnonzero', 'floor', 'floor_divide', 'greater',
+                 'greater_equal', 'isclose', 'iscomplex', 'iscomplexobj', 'isfinite', 'isinf', 'isnan', 'isneginf', 'isposinf',
+                 'isreal', 'isscalar', 'less', 'less_equal', 'logical_and', 'logical_not', 'logical_or', 'logical_xor', 'ndim',
+                 'nonzero', 'not_equal', 'ones_like', 'result_type', 'rint', 'round', 'searchsorted', 'shape', 'sign', 'size',
+                 'trunc', 'zeros_like']
 PRED1 = ["isfinite", "isinf", "isnan", "isneginf", "isposinf", "logical_not", "iscomplex", "isreal"]
 CMP2 = ["greater", "greater_equal", "less", "less_equal", "equal", "not_equal", "logical_and", "logical_or",
         "logical_xor", "floor_divide", "isclose"]
@@ -135,7 +141,9 @@ def main():
         except Exception as ex:
             record("independent-raised", desc, False, repr(ex))
     # ---- the registered non-differentiable functions ----
-    names = [f.__name__ for f in numpy_vjps.nograd_functions]
+    # the non-differentiable function set is part of the property, not read off the implementation: the pinned
+    # tree's list, plus whatever the current tree adds to it
+    names = sorted(set(NOGRAD_PINNED) | {f.__name__ for f in numpy_vjps.nograd_functions})
     for name in names:
         for rep in range(3):
             tpl = nograd_case(name, rng)
